@@ -13,6 +13,7 @@ Property theorems only (lemmas live in `PsiProofs/Helper/C01_*.lean`).
 `ChunkInvariant g s` says `drawAll g s ns = (g.next s ns.sum).1` for every `ns` — no bound on
 the number or size of chunks.
 -/
+set_option linter.dupNamespace false
 namespace Psi.Stim
 open Psi.Chunk
 
@@ -72,6 +73,62 @@ theorem squarewave_fragment_eq_slice {α : Type} [Sample α] (cycle on : Nat) (h
 
 example : squareWaveNext 4 2 (Cell.c .high 1) 3 7
     = [.z, .c .high 1, .c .high 1, .z, .z, .c .high 1, .c .high 1] := by decide
+
+/-- The modulation period in progress at absolute sample `k` (`SqP.periodAt`, the index used by the
+specification `squareAt`) is *the* period `i` with `round(fm_samples·i) ≤ k < round(fm_samples·(i+1))`
+(Python round-half-even of the exact product): it exists and is unique for every positive period. -/
+theorem square_period_in_progress (p : SqP) (hp : 0 < p.period) (k : Nat) :
+    p.startOf (p.periodAt k) ≤ (k : Int) ∧ (k : Int) < p.startOf (p.periodAt k + 1) ∧
+      ∀ i : Int, p.startOf i ≤ (k : Int) → (k : Int) < p.startOf (i + 1) → i = p.periodAt k :=
+  ⟨(periodAt_spec p hp k).1, (periodAt_spec p hp k).2, fun i h1 h2 => periodAt_unique p hp k i h1 h2⟩
+
+example : (⟨7 / 2, 4⟩ : SqP).periodAt 7 = 2 ∧ (⟨7 / 2, 4⟩ : SqP).startOf 2 = 7
+    ∧ (⟨7 / 2, 4⟩ : SqP).startOf 1 = 4 ∧ (⟨7 / 2, 4⟩ : SqP).startOf 3 = 10 := by decide +kernel
+
+/-- **`square_wave(fs, offset, samples, depth, fm, duty_cycle, alpha)` (with fix 4)** returns exactly
+the `[offset, offset+samples)` slice of `squareAt`: sample `k` is the Tukey-table entry
+`k − start` when `k` lies in the first `duty_samples` samples of the period in progress at `k`, else
+`1 − depth`.  For **every** positive rational period `fm_samples` (integer, non-integer, `< 1`,
+exact `.5` ties), every `duty_samples` (also longer than a period: overlapping windows, the later
+period wins in the code and in the spec), every offset and sample count — no bounds.  The model is
+the code's control flow: `offset // fm_samples`, `int(np.round(fm_samples * i)) - offset`, both
+branches with their `np.clip`s, the `while True` loop with its break test.
+
+Scope: exact rational arithmetic on the exact value of the double `fs/fm`.  Where IEEE products
+`fm_samples * i` or `offset // fm_samples` round differently from the exact ones (periods that are
+not exactly representable) the harness sends the case to the direct oracle only; float conformance
+of those two expressions is in the trusted base, not in this theorem. -/
+theorem square_fragment_eq_slice {α : Type} (tukey : Nat → α) (low : α) (p : SqP) (hp : 0 < p.period)
+    (off n : Nat) : squareWave tukey low p off n = slice (squareAt tukey low p) off n :=
+  squareWave_eq_slice tukey low p hp off n
+
+example : (0 : Rat) < (⟨7 / 2, 4⟩ : SqP).period := by decide +kernel
+/-- period 3.5, duty 4: starts 0, 4, 7, 10 (3.5 → 4 and 10.5 → 10 by half-even); the windows
+[4,8) and [7,11) overlap at sample 7, which shows table entry 0 of the later period. -/
+example : squareWave (Cell.a .tukey 0) (Cell.c .low 0) ⟨7 / 2, 4⟩ 5 6
+    = [.a .tukey 0 1, .a .tukey 0 2, .a .tukey 0 0, .a .tukey 0 1, .a .tukey 0 2, .a .tukey 0 0] := by
+  decide +kernel
+
+/-- **Termination of the stride loop**: for a positive period the break test
+`fm_samples * i_period - offset > samples` is reached within the `squareFuel` passes the model
+allots — any additional fuel leaves the result unchanged, i.e. the fuel-bounded `squareLoop` *is*
+the `while True` loop. -/
+theorem square_wave_fuel_sufficient {α : Type} (tbl env : List α) (p : SqP) (hp : 0 < p.period)
+    (off n extra : Nat) :
+    squareLoop tbl p off n (squareFuel p n + extra) ((off : Rat) / p.period).floor env
+      = squareLoop tbl p off n (squareFuel p n) ((off : Rat) / p.period).floor env :=
+  squareLoop_extra_fuel tbl p off n extra (squareFuel p n) _ env (by unfold squareFuel; omega)
+    (squareFuel_sufficient p hp off n)
+
+/-- The guard `fm_samples > 0` is *not* written in `square_wave`; it is what makes the loop stop.
+For a negative period the break test is false at every pass (`fm < 0` is rejected by
+`scipy.signal.windows.tukey` only when `duty_cycle > 0`; with `duty_cycle ≤ 0` the real
+`square_wave` does not return — observed, see notes/C01.md §5). -/
+theorem square_wave_negative_period_never_breaks (p : SqP) (hp : p.period < 0) (off n t : Nat) (ht : 1 ≤ t) :
+    ¬ (p.period * ((((off : Rat) / p.period).floor + (t : Int) : Int) : Rat) - (off : Rat) > (n : Rat)) :=
+  no_break_of_neg_period p hp off n t ht
+
+example : ((⟨-10, 0⟩ : SqP).period < 0) := by decide +kernel
 
 /-- `repeat()`: `(n + skip) * period` samples; sample `k` is waveform sample `k % period - delay`
 inside the occupied part of every non-skipped period and zero elsewhere. -/
@@ -135,24 +192,36 @@ def Stim.SqFree : Stim → Prop
   | .sqenv _ _ _ _ => False
   | .filt _ _ _ inner => inner.SqFree
 
-theorem Stim.wfs_of_wf (g : Stim) (h : g.WF) (hs : g.SqFree) : g.WFs := by
-  induction g with
-  | leaf => trivial
-  | sqwave => exact h
-  | fixed => trivial
-  | gate _ _ _ inner ih => exact ih h hs
-  | env _ _ _ inner ih => exact ⟨h.1, ih h.2 hs⟩
-  | sam _ _ _ inner ih => exact ih h hs
-  | sqenv => exact absurd hs (by simp [Stim.SqFree])
-  | filt _ _ _ inner ih => exact ih h hs
+theorem Stim.wfs_of_wf (g : Stim) (h : g.WF) (_hs : g.SqFree) : g.WFs := h.wfs
 
-/-- **Chunk invariance of every finite nesting** of Tone/SAMTone/Silence/noise carriers,
-SquareWaveFactory, FixedWaveform (Click, Chirp, Repeat), GateFactory, EnvelopeFactory
-(every window, rise `None` included), SAMEnvelopeFactory and filter transforms, from *any*
-state (in particular a freshly reset one), for every list of chunk sizes, including chunks
-past the end of a finite stimulus. -/
-theorem stim_chunk_invariant (g : Stim) (hwf : g.WF) (hsq : g.SqFree) : ChunkInvariant stimGen g :=
-  fun ns => stim_drawAll g (g.wfs_of_wf hwf hsq) ns
+/-- **Chunk invariance of every finite nesting of factories — unconditional.**  Tone/SAMTone/Silence/
+noise carriers, SquareWaveFactory, FixedWaveform (Click, Chirp, Repeat), GateFactory,
+EnvelopeFactory (every window, rise `None` included), SAMEnvelopeFactory,
+**SquareWaveEnvelopeFactory** (every positive rational period, every duty length) and filter
+transforms, nested to any depth, from *any* state (in particular a freshly reset one), for every
+list of chunk sizes, including chunks past the end of a finite stimulus: the concatenated chunks
+equal the single request.  The only hypothesis is `WF`, the guard under which the constructors
+work and `next` does not raise (`cycle > 0`, `2·rise ≤ duration`, `fm_samples > 0`).
+
+`square_wave` is covered in exact rational arithmetic (see `square_fragment_eq_slice`); float
+conformance of `fm_samples * i` / `offset // fm_samples` is in the trusted base. -/
+theorem stim_chunk_invariant_all (g : Stim) (hwf : g.WF) : ChunkInvariant stimGen g :=
+  fun ns => stim_drawAll g hwf.wfs ns
+
+example : (Stim.gate 3 40 0 (.sqenv 4 ⟨7 / 2, 4⟩ 0 (.env 1 ⟨2, 10, some 3⟩ 0 (.sqenv 5 ⟨2 / 5, 1⟩ 0 (.leaf 0 0))))).WF := by
+  refine ⟨by decide +kernel, by simp [EnvP.riseN], by decide +kernel, trivial⟩
+example : drawAll stimGen (Stim.gate 3 40 0 (.sqenv 4 ⟨7 / 2, 4⟩ 0 (.leaf 0 0))) [2, 3, 1, 9, 5]
+    = ((Stim.gate 3 40 0 (.sqenv 4 ⟨7 / 2, 4⟩ 0 (.leaf 0 0))).next 20).1 := by decide +kernel
+
+/-- Per class: SquareWaveEnvelopeFactory over any well-formed input. -/
+theorem squareenv_chunk_invariant (id : Nat) (p : SqP) (hp : 0 < p.period) (off : Nat) (inner : Stim)
+    (hwf : inner.WF) : ChunkInvariant stimGen (.sqenv id p off inner) :=
+  stim_chunk_invariant_all _ ⟨hp, hwf⟩
+
+/-- The earlier headline, kept under its name: the fragment without SquareWaveEnvelopeFactory.
+Now a corollary of `stim_chunk_invariant_all` (the hypothesis `SqFree` is no longer needed). -/
+theorem stim_chunk_invariant (g : Stim) (hwf : g.WF) (_hsq : g.SqFree) : ChunkInvariant stimGen g :=
+  stim_chunk_invariant_all g hwf
 
 example : (Stim.gate 3 4 0 (.env 1 ⟨2, 10, some 3⟩ 0 (.sam 2 5 0 (.leaf 0 0)))).WF := by
   simp [Stim.WF, EnvP.riseN]
@@ -161,10 +230,10 @@ example : (Stim.gate 3 4 0 (.env 1 ⟨2, 10, some 3⟩ 0 (.sam 2 5 0 (.leaf 0 0)
 example : drawAll stimGen (Stim.gate 3 4 0 (.env 1 ⟨2, 10, none⟩ 0 (.leaf 0 0))) [2, 3, 1, 9]
     = ((Stim.gate 3 4 0 (.env 1 ⟨2, 10, none⟩ 0 (.leaf 0 0))).next 15).1 := by decide
 
-/-- Trees that contain SquareWaveEnvelopeFactory nodes: chunk-invariant provided `square_wave`
-obeys its fragment law (`SquareSliceLaw`: the fragment is the slice of one function of the
-absolute index) for the parameters at those nodes.  PARTIAL: that law is not proved in Lean
-for the rational-period stride loop; it is validated by the correspondence check only. -/
+/-- Kept under its old name: chunk invariance under the hypothesis `WFs` (`SquareSliceLaw` at every
+SquareWaveEnvelopeFactory node).  No longer the best result: `SquareSliceLaw p` is now proved for
+every positive period (`squareSliceLaw_of_pos`, from `square_fragment_eq_slice`), so `WF → WFs`
+(`Stim.WF.wfs`) and `stim_chunk_invariant_all` needs no such hypothesis. -/
 theorem stim_chunk_invariant_partial (g : Stim) (h : g.WFs) : ChunkInvariant stimGen g :=
   fun ns => stim_drawAll g h ns
 
